@@ -422,7 +422,8 @@ def run_ambient(ctx):
 
 def run(ctx):
     ctx.note('rule', 'one case = one operator / functional instance (registry recipe, or operator manufactured from it: adjoint, '
-                     'inverse, derivative(x), gradient, proximal, convex_conj.proximal) driven through the call protocol; '
+                     'inverse, derivative(x), gradient, proximal, convex_conj.proximal, or one of 14 arithmetic wrappers around it) driven through '
+                     'the call protocol; '
                      'distinct = distinct (recipe name + manufactured tag); every Operator.__call__ made during the run is '
                      'additionally checked by the contract wrapper')
     sanitize.poison_on()
